@@ -24,6 +24,7 @@ import (
 	"time"
 
 	ssi "github.com/nuts-foundation/go-did"
+	"github.com/nuts-foundation/go-leia/v4"
 	"github.com/nuts-foundation/go-did/did"
 	"github.com/nuts-foundation/go-did/vc"
 	"github.com/nuts-foundation/nuts-node/audit"
@@ -59,6 +60,12 @@ type c11aOp struct {
 	// areprocess: content type of the re-processed transaction ("" in the op = private transaction without payload)
 	CT        string `json:"ct,omitempty"`
 	NoPayload bool   `json:"nopayload,omitempty"`
+	// astore: a credential (id, issuer = id prefix unless Issuer is given) put into the node's credential store; Exp: it expires in one hour
+	// aresolve / asearch: vcr.Resolve(id, resolveTime) / vcr.Search(issuer prefix did:nuts:, allowUntrusted, resolveTime);
+	// resolveTime = now + At minutes (0: nil). atrust: the operator trusts Issuer for TestCredential
+	Exp       bool `json:"exp,omitempty"`
+	At        int  `json:"at,omitempty"`
+	Untrusted bool `json:"untrusted,omitempty"`
 }
 
 const (
@@ -135,6 +142,8 @@ type c11aWorld struct {
 	v     verifier.Verifier
 	amb   ambassador
 	tx    dag.Transaction
+	node  *vcr
+	trust *trust.Config
 }
 
 func (w *c11aWorld) reset() {
@@ -151,6 +160,46 @@ func (w *c11aWorld) reset() {
 	trustConfig := trust.NewConfig(path.Join(w.dir, fmt.Sprintf("trust-%d.yaml", w.n)))
 	w.v = verifier.NewVerifier(w.store, nil, w.keys, w.ld, trustConfig, revocation.NewStatusList2021(orm.NewTestDatabase(w.t), nil, "https://verifier.example"))
 	w.amb = ambassador{verifier: w.v}
+	// the node's credential store (what createCredentialsStore builds) behind the real vcr.Resolve / vcr.Search
+	if w.node != nil {
+		_ = w.node.store.Close()
+	}
+	ls, err := leia.NewStore(path.Join(w.dir, fmt.Sprintf("credentials-%d.db", w.n)), leia.WithDocumentLoader(w.ld.DocumentLoader()))
+	if err != nil {
+		w.t.Fatal(err)
+	}
+	kv, err := storage.NewKVBackedLeiaStore(ls, storage.CreateTestBBoltStore(w.t, path.Join(w.dir, fmt.Sprintf("backup-creds-%d.db", w.n))))
+	if err != nil {
+		w.t.Fatal(err)
+	}
+	kv.AddConfiguration(storage.LeiaBackupConfiguration{CollectionName: "credentials", CollectionType: leia.JSONLDCollection,
+		BackupShelf: credentialsBackupShelf, SearchQuery: leia.NewIRIPath()})
+	w.trust = trustConfig
+	w.node = &vcr{store: kv, verifier: w.v, trustConfig: trustConfig, jsonldManager: w.ld}
+}
+
+func (w *c11aWorld) resolveTime(op c11aOp) *time.Time {
+	if op.At == 0 {
+		return nil
+	}
+	t := time.Now().Add(time.Duration(op.At) * time.Minute)
+	return &t
+}
+
+func c11aClass(err error) string {
+	switch {
+	case err == nil:
+		return "ok"
+	case errors.Is(err, types.ErrRevoked):
+		return "revoked"
+	case errors.Is(err, types.ErrUntrusted):
+		return "untrusted"
+	case errors.Is(err, types.ErrNotFound):
+		return "notfound"
+	case errors.Is(err, types.ErrCredentialNotValidAtTime):
+		return "err:not-valid-at-time"
+	}
+	return "err:other:" + err.Error()
 }
 
 func (w *c11aWorld) signedRevocation(op c11aOp) ([]byte, error) {
@@ -256,6 +305,53 @@ func (w *c11aWorld) exec(op c11aOp) (line string) {
 			parts = append(parts, name+":["+strings.Join(res, " ")+"]")
 		}
 		return "awire " + strings.Join(parts, " ")
+	case "astore":
+		issuer := op.Issuer
+		if issuer == "" {
+			issuer = strings.Split(op.ID, "#")[0]
+		}
+		m := map[string]interface{}{
+			"@context":          []interface{}{vc.VCContextV1URI().String()},
+			"type":              []interface{}{"VerifiableCredential", "TestCredential"},
+			"id":                op.ID,
+			"issuer":            issuer,
+			"issuanceDate":      time.Now().Add(-time.Hour).Format(time.RFC3339),
+			"credentialSubject": map[string]interface{}{"id": c11aB},
+		}
+		if op.Exp {
+			m["expirationDate"] = time.Now().Add(time.Hour).Format(time.RFC3339)
+		}
+		raw, _ := json.Marshal(m)
+		if _, err := w.node.find(ssi.MustParseURI(op.ID)); err == nil {
+			return "astore exists"
+		}
+		if err := w.node.credentialCollection().Add([]leia.Document{raw}); err != nil {
+			return "astore err:" + err.Error()
+		}
+		return "astore ok"
+	case "atrust":
+		if err := w.trust.AddTrust(ssi.MustParseURI("TestCredential"), ssi.MustParseURI(op.Issuer)); err != nil {
+			return "atrust err:" + err.Error()
+		}
+		return "atrust ok"
+	case "aresolve":
+		cred, err := w.node.Resolve(ssi.MustParseURI(op.ID), w.resolveTime(op))
+		if cred != nil && (cred.ID == nil || cred.ID.String() != op.ID) {
+			return "aresolve other-credential"
+		}
+		return fmt.Sprintf("aresolve cred=%v %s", cred != nil, c11aClass(err))
+	case "asearch":
+		terms := []SearchTerm{{IRIPath: jsonld.CredentialIssuerPath, Type: Prefix, Value: "did:nuts:"}}
+		creds, err := w.node.Search(context.Background(), terms, op.Untrusted, w.resolveTime(op))
+		if err != nil {
+			return "asearch err:" + err.Error()
+		}
+		var ids []string
+		for _, c := range creds {
+			ids = append(ids, c.ID.String())
+		}
+		sort.Strings(ids)
+		return "asearch [" + strings.Join(ids, " ") + "]"
 	case "averify":
 		m := map[string]interface{}{
 			"@context":          []interface{}{vc.VCContextV1URI().String()},
@@ -359,6 +455,20 @@ func TestVerifC11a(t *testing.T) {
 		for i, steps := 0, 6+rng.Intn(14); i < steps; i++ {
 			prefix := []string{c11aA, c11aB}[rng.Intn(2)]
 			id := fmt.Sprintf("%s#%d", prefix, rng.Intn(3))
+			ats := []int{0, 0, -100000, -120, -45, -30, -5, 5, 30, 100000}
+			if rng.Intn(10) < 4 { // the node's own credential store: store / trust / Resolve / Search with a resolveTime
+				switch rng.Intn(7) {
+				case 0, 1:
+					run(c11aOp{Op: "astore", Sc: sc, ID: id, Exp: rng.Intn(3) == 0})
+				case 2:
+					run(c11aOp{Op: "atrust", Sc: sc, Issuer: prefix})
+				case 3, 4:
+					run(c11aOp{Op: "aresolve", Sc: sc, ID: id, At: ats[rng.Intn(len(ats))]})
+				default:
+					run(c11aOp{Op: "asearch", Sc: sc, Untrusted: rng.Intn(2) == 0, At: ats[rng.Intn(len(ats))]})
+				}
+				continue
+			}
 			if rng.Intn(3) == 0 {
 				run(c11aOp{Op: "averify", Sc: sc, ID: id})
 				continue
@@ -391,6 +501,21 @@ func TestVerifC11a(t *testing.T) {
 				op.Fault = "other"
 			}
 			run(op)
+			if op.Fault == "" && op.Issuer == prefix && rng.Intn(3) == 0 {
+				// hostile sequence: the revocation arrived (possibly before the credential); the credential is stored, its issuer
+				// trusted, and the node is asked about moments before and after the revocation's own date
+				if rng.Intn(2) == 0 {
+					run(c11aOp{Op: "atrust", Sc: sc, Issuer: prefix})
+				}
+				run(c11aOp{Op: "astore", Sc: sc, ID: id})
+				other := fmt.Sprintf("%s#%d", prefix, 7+rng.Intn(2))
+				run(c11aOp{Op: "astore", Sc: sc, ID: other})
+				for _, at := range [][]int{{-30, 30}, {-5, 0}, {-45, 5}}[rng.Intn(3)] {
+					run(c11aOp{Op: "aresolve", Sc: sc, ID: id, At: at})
+					run(c11aOp{Op: "asearch", Sc: sc, Untrusted: rng.Intn(3) > 0, At: at})
+				}
+				run(c11aOp{Op: "aresolve", Sc: sc, ID: other, At: -30})
+			}
 			if op.Fault != "" && rng.Intn(2) == 0 { // the notifier's retry: same event again, store healthy
 				op.Fault, op.Wraps = "", 0
 				run(op)
